@@ -31,7 +31,10 @@ EXTENDS Integers, Sequences, FiniteSets, TLC
 CONSTANTS
   MaxIn, MaxOut, MaxKern,   \* shape bounds of the transaction part
   Vals,                     \* value units of plain commitments, e.g. 0..3
-  Blinds,                   \* blinding scalars of commitments, e.g. 1..3
+  NBlind,                   \* blinding scalars of commitments are 1..NBlind
+  RPatterns,                \* stratification of the blinding scalars: pairs <<a, b>>; input i carries
+                            \* 1 + (i-1+a) % NBlind, output j carries 1 + (j-1+b) % NBlind and the
+                            \* coinbase output of a block 1 + (a+b) % NBlind
   Fees,                     \* fee units per fee-carrying kernel, e.g. {1,2}
   Offsets,                  \* kernel offsets, e.g. {-1,0,1}
   Splits,                   \* first-kernel excess candidates for two-kernel bodies
@@ -179,7 +182,6 @@ Degenerate(b, c) ==
       \/ Sum(b.kerns, X) + off = 0
       \/ Sum(b.outs, R) - Sum(b.ins, R) = 0
       \/ c.as = "block" /\ (cbk = <<>> \/ Sum(cbk, X) = 0 \/ Sum(cbo, R) = 0)
-      \/ c.as = "block" /\ c.total = 0 /\ c.prev # 0   \* zero is not a secret key: see C01 notes
 
 -----------------------------------------------------------------------------
 \* Generator of valid bases
@@ -206,39 +208,41 @@ MkKernel(kind, fee, x, sid) ==
   [kind |-> kind, fee |-> fee, lock |-> IF kind = "hl" THEN Height ELSE 0,
    rel |-> IF kind = "nrd" THEN 1 ELSE 0, x |-> x, sg |-> TRUE, sid |-> sid]
 
+Blinds == 1..NBlind
+Cyc(i, a) == 1 + ((i - 1 + a) % NBlind)
+
 Bases(g, w) ==
-  LET TxParts ==
-        {p \in [rin : [1..g.ni -> Blinds], rout : [1..g.no -> Blinds], off : Offsets, x1 : Splits] :
-           LET ins  == [i \in 1..g.ni |-> [v |-> w.vin[i], r |-> p.rin[i]]]
-               outs == [i \in 1..g.no |-> [v |-> w.vout[i], r |-> p.rout[i]]]
-               xs   == SeqSum(p.rout) - SeqSum(p.rin) - p.off
-           IN  /\ \A i \in 1..(g.ni - 1) : w.vin[i] = w.vin[i + 1] => p.rin[i] < p.rin[i + 1]
-               /\ \A i \in 1..(g.no - 1) : w.vout[i] = w.vout[i + 1] => p.rout[i] < p.rout[i + 1]
-               /\ ~Dup(ins \o outs, Commit)
-               /\ g.nk <= 1 => p.x1 = CHOOSE s \in Splits : TRUE      \* unused: fix it
-               /\ g.nk = 0 => p.off = 0
-               /\ g.nk = 1 => xs # 0
-               /\ g.nk = 2 => /\ xs - p.x1 # 0
-                              /\ ~(w.kinds[1] = "nrd" /\ w.kinds[2] = "nrd" /\ p.x1 = xs - p.x1)}
-      Build(p, rcb, prev) ==
-        LET xs == SeqSum(p.rout) - SeqSum(p.rin) - p.off
+  LET Rin(p)  == [i \in 1..g.ni |-> Cyc(i, p.pat[1])]
+      Rout(p) == [i \in 1..g.no |-> Cyc(i, p.pat[2])]
+      Ins(p)  == [i \in 1..g.ni |-> [v |-> w.vin[i], r |-> Rin(p)[i]]]
+      Outs(p) == [i \in 1..g.no |-> [v |-> w.vout[i], r |-> Rout(p)[i], cb |-> FALSE, pf |-> TRUE]]
+      Xs(p)   == SeqSum(Rout(p)) - SeqSum(Rin(p)) - p.off
+      TxParts ==
+        {p \in [pat : RPatterns, off : Offsets, x1 : Splits] :
+           /\ ~Dup(Ins(p) \o Outs(p), Commit)
+           /\ g.nk <= 1 => p.x1 = CHOOSE s \in Splits : TRUE      \* unused: fix it
+           /\ g.nk = 0 => p.off = 0
+           /\ g.nk = 1 => Xs(p) # 0
+           /\ g.nk = 2 => /\ Xs(p) - p.x1 # 0
+                          /\ ~(w.kinds[1] = "nrd" /\ w.kinds[2] = "nrd" /\ p.x1 = Xs(p) - p.x1)}
+      Build(p, prev) ==
+        LET xs == Xs(p)
             kx == IF g.nk = 1 THEN <<xs>> ELSE IF g.nk = 2 THEN <<p.x1, xs - p.x1>> ELSE <<>>
             txk == [i \in 1..g.nk |-> MkKernel(w.kinds[i], w.fees[i], kx[i], i)]
             fees == SeqSum(w.fees)
-            ins == [i \in 1..g.ni |-> [v |-> w.vin[i], r |-> p.rin[i]]]
-            pouts == [i \in 1..g.no |-> [v |-> w.vout[i], r |-> p.rout[i], cb |-> FALSE, pf |-> TRUE]]
+            rcb == Cyc(1, p.pat[1] + p.pat[2])
         IN  IF g.as = "tx"
-            THEN [body |-> [ins |-> ins, outs |-> pouts, kerns |-> txk, off |-> p.off],
+            THEN [body |-> [ins |-> Ins(p), outs |-> Outs(p), kerns |-> txk, off |-> p.off],
                   ctx |-> [as |-> "tx", prev |-> 0, total |-> 0, height |-> Height, ver |-> NrdVersion, nrd |-> TRUE]]
-            ELSE [body |-> [ins |-> ins,
-                            outs |-> Append(pouts, [v |-> Reward + fees, r |-> rcb, cb |-> TRUE, pf |-> TRUE]),
+            ELSE [body |-> [ins |-> Ins(p),
+                            outs |-> Append(Outs(p), [v |-> Reward + fees, r |-> rcb, cb |-> TRUE, pf |-> TRUE]),
                             kerns |-> Append(txk, MkKernel("cb", 0, rcb, g.nk + 1)),
                             off |-> 0],
                   ctx |-> [as |-> "block", prev |-> prev, total |-> prev + p.off, height |-> Height,
                            ver |-> NrdVersion, nrd |-> TRUE]]
   IN  IF g.as = "tx"
-      THEN {Build(p, 0, 0) : p \in TxParts}
-      ELSE {Build(p, rcb, prev) : p \in TxParts, rcb \in Blinds, prev \in PrevOffsets}
+      THEN {Build(p, 0) : p \in TxParts}
+      ELSE {Build(p, prev) : p \in TxParts, prev \in PrevOffsets}
 
 -----------------------------------------------------------------------------
 \* Single-field corruptions.  Each yields [cls, body, ctx].
